@@ -764,6 +764,25 @@ func doHist(id, rule string, ops *sexp) string {
 	}
 	var outs []string
 	var lastObj map[string]interface{}
+	// every error the caller was handed stays the caller's: its text is taken at once and again at the end
+	type keptErr struct {
+		err  error
+		text string
+	}
+	var kept []keptErr
+	errText := func(e error) (t string) {
+		defer func() {
+			if r := recover(); r != nil {
+				t = "\x00PANIC"
+			}
+		}()
+		return e.Error()
+	}
+	keep := func(e error) {
+		if e != nil && len(kept) < 64 {
+			kept = append(kept, keptErr{e, errText(e)})
+		}
+	}
 	for _, op := range ops.list {
 		if !op.isL {
 			switch op.atom {
@@ -771,7 +790,9 @@ func doHist(id, rule string, ops *sexp) string {
 				ev.Reset()
 				outs = append(outs, "r")
 			case "d":
-				outs = append(outs, "d"+dbgClass(ev.LastDebugErr()))
+				de := ev.LastDebugErr()
+				keep(de)
+				outs = append(outs, "d"+dbgClass(de))
 			default:
 				return id + " BADCASE"
 			}
@@ -803,9 +824,21 @@ func doHist(id, rule string, ops *sexp) string {
 			}()
 			v, perr = ev.Process(obj)
 		}()
+		keep(perr)
 		outs = append(outs, "p"+b01(v)+","+errClass(perr)+","+dbgClass(ev.LastDebugErr()))
 	}
-	return id + " out=" + strings.Join(outs, ";")
+	keptState := "ok"
+	for _, k := range kept {
+		now := errText(k.err)
+		if now == "\x00PANIC" && k.text != "\x00PANIC" {
+			keptState = "panic"
+			break
+		}
+		if now != k.text {
+			keptState = "changed"
+		}
+	}
+	return id + " out=" + strings.Join(outs, ";") + " kept=" + keptState
 }
 
 func doOpcall(id string, x *sexp) (out string) {
